@@ -21,3 +21,22 @@ PROPS["C20"] = {
     "thorough": {"stages": [{"kind": "replay"}, {"kind": "rc", "procs": 16, "cases": 200000, "maxlen": 700},
                             {"kind": "fuzz", "workers": 16, "seconds": 150, "maxlen": 700}]},
 }
+
+PROPS["C19"] = {
+    "source": "c19_address.cc",
+    "level": "exploration",
+    "rule": ("choice-stream decoded by construction into host texts (IPv4 quads with boundary octets; IPv6 from 8 generated groups in full, "
+             "every '::' compression position incl. sub-runs, leading zeros, upper/lower hex, loopback, any, IPv4-mapped; aliases * and "
+             "localhost) x port parts (absent, valid incl. 0/80/65535, empty, >65535, overlong, negative, non-numeric, unspecified forms) x "
+             "structural mutations (junk after ']', missing/doubled/empty brackets, bad groups, doubled colon, bad IPv4), through "
+             "Address(string), Address(host,Port) and Port(string). A reference grammar classifies each text must-accept / must-reject / "
+             "unspecified. Non-trivial = compressed IPv6, boundary port, rejected port form, or a structural mutation; distinct = hash of the text."),
+    "engine": "rapidcheck+libFuzzer",
+    "technique": "property-based testing (rapidcheck) and libFuzzer against a reference address grammar (accept/reject classes, inet_pton/inet_ntop canonical form) plus a print/re-parse round trip",
+    "level_text": "Generated-input search against a reference grammar written for the harness; checks both directions (valid forms accepted with exact host/port/family and re-parseable printing; invalid ports and malformed literals rejected with std::invalid_argument). Exploration only.",
+    "level_note": "Trusts glibc inet_pton/inet_ntop as the canonical form and the harness's accept/reject classification; forms the statement is silent on (inet_aton short forms, '+80', leading zeros, unbracketed IPv6) are only checked for clean handling.",
+    "assumptions": ["glibc inet_pton/inet_ntop define the canonical host text", "getaddrinfo on numeric hosts needs no network"],
+    "quick": {"stages": [{"kind": "replay"}, {"kind": "rc", "procs": 8, "cases": 40000, "maxlen": 96}]},
+    "thorough": {"stages": [{"kind": "replay"}, {"kind": "rc", "procs": 16, "cases": 300000, "maxlen": 96},
+                            {"kind": "fuzz", "workers": 16, "seconds": 150, "maxlen": 96}]},
+}
